@@ -71,6 +71,88 @@ static int must_revalidate_stale(const long *in) { return (in[RC_ENTRY_FLAGS] & 
 static int revalidate_always(const long *in) { return (in[RC_ENTRY_FLAGS] & (1L << ENTRY_REVALIDATE_ALWAYS)) != 0; }
 static int reply_immutable(const long *in) { return rc_on(in[RC_HAVE_MEM]) && rc_on(in[RC_REP_HAVE_CC]) && rc_on(in[RC_REP_IMMUTABLE]); }
 
+
+/* ---- exact transcription of refreshCheck()'s decision ladder (used by target check_all; also compiled into the replay) ---- */
+/* the rule refreshCheck() ends up with: an entry with a store ID or a request is looked up by refreshLimits(url), anything else
+ * by refreshFirstDotRule(); a miss falls back to the built-in default rule (min 0, 20%, max 3 days, no options, max_stale -1) */
+static int uses_pattern(const long *in)
+{
+    return (rc_on(in[RC_HAVE_MEM]) || rc_on(in[RC_HAVE_REQUEST])) ? in[RC_WHICH_RULE] == 0 : in[RC_WHICH_RULE] == 1;
+}
+static long r_min(const long *in) { return uses_pattern(in) ? in[RC_PAT_MIN] : 0; }
+static long r_max(const long *in) { return uses_pattern(in) ? in[RC_PAT_MAX] : 259200; }
+static double r_pct(const long *in, double pct) { return uses_pattern(in) ? pct : 0.20; }
+static int r_flag(const long *in, int which) { return uses_pattern(in) && rc_on(in[which]); }
+/* the entry's age at the judged instant, as refreshCheck() computes it */
+static long spec_age(const long *in)
+{
+    long check0 = in[RC_NOW] + in[RC_DELTA];
+    long age = check0 > in[RC_TIMESTAMP] ? check0 - in[RC_TIMESTAMP] : 0;
+    return age + (min_fresh_applies(in) ? in[RC_REQ_MINFRESH] : 0);
+}
+/* which refreshStaleness() rule decides (see spec_rule) for this refreshCheck() call */
+static int spec_check_rule(const long *in, double pct)
+{
+    return spec_rule(in[RC_EXPIRES], in[RC_TIMESTAMP], in[RC_LASTMOD], judged_at(in), spec_age(in), r_min(in), r_pct(in, pct), r_max(in));
+}
+/* refreshCheck()'s answer, given which rule decided and the staleness (-1 = fresh) that rule produced */
+static int spec_check(const long *in, int rule, long staleness, int *fail_on_validation, int *no_cache)
+{
+    const int have_req = rc_on(in[RC_HAVE_REQUEST]);
+    const int rep_cc = rc_on(in[RC_HAVE_MEM]) && rc_on(in[RC_REP_HAVE_CC]);
+    const long age = spec_age(in);
+    *fail_on_validation = 0;
+    *no_cache = 0;
+    if (have_req && rep_cc && rc_on(in[RC_REP_SIE_SET]) && in[RC_REP_SIE] < staleness)
+        *fail_on_validation = 1;
+    if (revalidate_always(in) || (staleness > -1 && must_revalidate_stale(in))) {
+        if (have_req) *fail_on_validation = 1;
+        return STALE_MUST_REVALIDATE;
+    }
+    if (have_req && !rc_on(in[RC_REQ_IGNORE_CC])) {
+        if (rc_on(in[RC_REQ_IMS]) && (r_flag(in, RC_PAT_REFRESH_IMS) || in[RC_CFG_REFRESH_ALL_IMS] != 0))
+            return STALE_FORCED_RELOAD;
+        if (rc_on(in[RC_REQ_NOCACHE_HACK])) {
+            if (r_flag(in, RC_PAT_IGNORE_RELOAD)) {
+            } else if (r_flag(in, RC_PAT_RELOAD_INTO_IMS) || in[RC_CFG_RELOAD_INTO_IMS] != 0) {
+                return STALE_RELOAD_INTO_IMS;
+            } else {
+                *no_cache = 1;
+                return STALE_FORCED_RELOAD;
+            }
+        }
+        if (rc_on(in[RC_REQ_HAVE_CC])) {
+            if (rc_on(in[RC_REQ_MAXAGE_SET])) {
+                if (rep_cc && rc_on(in[RC_REP_IMMUTABLE])) {
+                } else if (r_flag(in, RC_PAT_IGNORE_RELOAD) && in[RC_REQ_MAXAGE] == 0) {
+                } else if (age > in[RC_REQ_MAXAGE] || in[RC_REQ_MAXAGE] == 0) {
+                    return STALE_EXCEEDS_REQUEST_MAX_AGE_VALUE;
+                }
+            }
+            if (rc_on(in[RC_REQ_MAXSTALE_SET]) && staleness > -1) {
+                if (in[RC_REQ_MAXSTALE] == 0x7fffffff) return FRESH_REQUEST_MAX_STALE_ALL;
+                else if (staleness < in[RC_REQ_MAXSTALE]) return FRESH_REQUEST_MAX_STALE_VALUE;
+            }
+        }
+    }
+    if (staleness == -1)
+        return rule == 1 ? FRESH_EXPIRES : rule == 4 ? FRESH_LMFACTOR_RULE : FRESH_MIN_RULE;
+    {
+        const long pat_ms = uses_pattern(in) ? in[RC_PAT_MAX_STALE] : -1;
+        const long max_stale = pat_ms >= 0 ? pat_ms : in[RC_CFG_MAX_STALE];
+        if (max_stale >= 0 && staleness > max_stale) {
+            if (have_req) *fail_on_validation = 1;
+            return STALE_MAX_STALE;
+        }
+    }
+    if (rule == 1) return (r_flag(in, RC_PAT_OVERRIDE_EXPIRE) && age < r_min(in)) ? FRESH_OVERRIDE_EXPIRES : STALE_EXPIRES;
+    if (rule == 8) return STALE_MAX_RULE;
+    if (rule == 4) return (r_flag(in, RC_PAT_OVERRIDE_LASTMOD) && age < r_min(in)) ? FRESH_OVERRIDE_LASTMOD : STALE_LMFACTOR_RULE;
+    return STALE_DEFAULT;
+}
+/* the three answers that mean "fresh by the entry's own lifetime" (refreshIsStaleIfHit() == false) */
+static int genuinely_fresh_code(int c) { return c == FRESH_EXPIRES || c == FRESH_LMFACTOR_RULE || c == FRESH_MIN_RULE; }
+
 #ifndef CV_NATIVE
 extern int rs_refreshCheck(const long *in, double pct);
 extern int g_rc_fail_on_validation, g_rc_no_cache;
@@ -142,6 +224,234 @@ void h_check(void)
     __CPROVER_assert(!(code == STALE_MAX_STALE), "reach: configured max-stale limit");
     __CPROVER_assert(!(code == STALE_FORCED_RELOAD && g_rc_no_cache), "reach: client reload honoured");
     __CPROVER_assert(!(in[RC_WHICH_RULE] == 2 && code == STALE_EXPIRES), "reach: built-in default rule used");
+#endif
+}
+#endif
+
+/* ---------------- target "check_all": refreshCheck on ALL entries (explicit expiry or heuristic freshness) ----------------
+ * ensures: = the two C12 sentences that bind on every path ("Requests with Cache-Control max-age=0 or no-cache, and stale
+ * responses marked must-revalidate, also always contact the origin").  pinned: = the code's own ladder, transcribed in
+ * spec_check(): which FRESH_/STALE_ code comes out for which heuristic rule (the property does not demand those). */
+#ifdef T_CHECK_ALL
+void h_check_all(void)
+{
+    long in[RC_COUNT];
+    double pct;
+    /* input domain: as for check_explicit, but the expiry may be unset (-1, or any other negative: the code treats them alike) */
+    __CPROVER_assume(in[RC_NOW] >= 0 && in[RC_NOW] <= TMAX && in[RC_DELTA] >= 0 && in[RC_DELTA] <= TMAX);
+    __CPROVER_assume(!rc_on(in[RC_REQ_MINFRESH_SET]) || (in[RC_REQ_MINFRESH] >= 0 && in[RC_REQ_MINFRESH] <= TMAX));
+    IN_INT(RC_REQ_MINFRESH); IN_INT(RC_REQ_MAXAGE); IN_INT(RC_REQ_MAXSTALE); IN_INT(RC_REP_SIE); IN_INT(RC_PAT_MAX_STALE);
+    IN_INT(RC_CFG_REFRESH_ALL_IMS); IN_INT(RC_CFG_RELOAD_INTO_IMS); IN_INT(RC_CFG_MAX_STALE);
+    __CPROVER_assume(judged_at(in) <= TMAX);
+#ifdef ONLY_HEURISTIC
+    __CPROVER_assume(in[RC_EXPIRES] >= -TMAX - 1 && in[RC_EXPIRES] <= -1);
+#else
+    __CPROVER_assume(in[RC_EXPIRES] >= -TMAX - 1 && in[RC_EXPIRES] <= TMAX);
+#endif
+    __CPROVER_assume(in[RC_TIMESTAMP] >= -1 && in[RC_TIMESTAMP] <= TMAX && in[RC_LASTMOD] >= -1 && in[RC_LASTMOD] <= TMAX);
+    __CPROVER_assume(in[RC_PAT_MIN] >= 0 && in[RC_PAT_MIN] <= TMAX && in[RC_PAT_MAX] >= 0 && in[RC_PAT_MAX] <= TMAX);
+#ifdef DEFAULT_RULE_ONLY
+    in[RC_WHICH_RULE] = 2;                                /* no refresh_pattern matches: the built-in default rule (min 0, 20%, max 3 days) */
+#else
+    __CPROVER_assume(in[RC_WHICH_RULE] >= 0 && in[RC_WHICH_RULE] <= 2);
+#endif
+    __CPROVER_assume(pct >= 0.0 && pct <= PCTMAX);
+
+    int code = rs_refreshCheck(in, pct);
+
+    const int rule = spec_check_rule(in, pct);            /* 1 expires, 8 max, 4 L-M factor, 2 min, 0 default */
+    const long age = spec_age(in);
+    const double epct = r_pct(in, pct);
+    const int ignore_reload = r_flag(in, RC_PAT_IGNORE_RELOAD);
+#ifdef LM_EXACT
+    const int st_known = 1;                                /* the L-M product is recomputed */
+#else
+    const int st_known = rule != 4 || epct == 0.0;         /* L-M factor rule: only the 0% case is recomputed (SAT cost of a second multiplier) */
+#endif
+    long st = -1;                                          /* the staleness refreshStaleness() owes for this call (-1 fresh) */
+    if (rule == 1)
+        st = in[RC_EXPIRES] > judged_at(in) ? -1 : judged_at(in) - in[RC_EXPIRES];
+    else if (rule == 8)
+        st = age - r_max(in);
+    else if (rule == 2)
+        st = -1;
+    else if (rule == 0)
+        st = age - r_min(in);
+    else if (epct == 0.0)
+        st = age;
+#ifdef LM_EXACT
+    else {
+        const long lm = in[RC_LASTMOD] < 0 ? in[RC_TIMESTAMP] : in[RC_LASTMOD];
+        const long stale_age = (long)((double)(in[RC_TIMESTAMP] - lm) * epct);
+        st = age < stale_age ? -1 : age - stale_age;
+    }
+#endif
+    int sfail, snocache;
+    const int spec = spec_check(in, rule, st, &sfail, &snocache);
+
+    __CPROVER_assert(stale_code(code) || fresh_code(code), "ensures: the answer is one of the FRESH_/STALE_ codes");
+    /* C12: request max-age=0 always contacts the origin (code's exceptions: reply Cache-Control immutable, ignore-reload option) */
+#ifdef TWIN_CHECK_ALL
+    __CPROVER_assert(!(req_cc_active(in) && rc_on(in[RC_REQ_MAXAGE_SET]) && in[RC_REQ_MAXAGE] == 0 && !reply_immutable(in) && !ignore_reload) ||
+                     !stale_code(code), "ensures: TWIN (negated) every entry: request max-age=0 => a STALE_ code");
+#else
+    __CPROVER_assert(!(req_cc_active(in) && rc_on(in[RC_REQ_MAXAGE_SET]) && in[RC_REQ_MAXAGE] == 0 && !reply_immutable(in) && !ignore_reload) ||
+                     stale_code(code), "ensures: every entry: request max-age=0 => a STALE_ code (unless immutable / ignore-reload)");
+#endif
+    /* C12: request no-cache that reaches refreshCheck (nocacheHack) */
+    __CPROVER_assert(!(rc_on(in[RC_HAVE_REQUEST]) && !rc_on(in[RC_REQ_IGNORE_CC]) && rc_on(in[RC_REQ_NOCACHE_HACK]) && !ignore_reload) || stale_code(code),
+                     "ensures: every entry: client reload (no-cache) => a STALE_ code unless ignore-reload");
+    /* C12: stale responses marked must-revalidate */
+    __CPROVER_assert(!revalidate_always(in) || code == STALE_MUST_REVALIDATE, "ensures: every entry: ENTRY_REVALIDATE_ALWAYS => STALE_MUST_REVALIDATE");
+    __CPROVER_assert(!must_revalidate_stale(in) || stale_code(code) || genuinely_fresh_code(code),
+                     "ensures: every entry: ENTRY_REVALIDATE_STALE is never answered FRESH_REQUEST_MAX_STALE_* / FRESH_OVERRIDE_* (no client or config excuse)");
+    __CPROVER_assert(!(must_revalidate_stale(in) && st_known && st > -1) || code == STALE_MUST_REVALIDATE,
+                     "ensures: every entry: stale (by expiry, max rule, min rule/default, L-M factor) and ENTRY_REVALIDATE_STALE => STALE_MUST_REVALIDATE");
+    __CPROVER_assert(!(must_revalidate_stale(in) && fresh_code(code)) ||
+                     (code == FRESH_EXPIRES && in[RC_EXPIRES] > judged_at(in)) ||
+                     (code == FRESH_MIN_RULE && rule == 2 && age < r_min(in)) ||
+                     (code == FRESH_LMFACTOR_RULE && rule == 4 && epct > 0.0 && (!st_known || st == -1)),
+                     "ensures: every entry: a must-revalidate entry is answered FRESH_ only when its own lifetime rule says fresh");
+    __CPROVER_assert(!(code == STALE_MUST_REVALIDATE && rc_on(in[RC_HAVE_REQUEST])) || g_rc_fail_on_validation,
+                     "ensures: every entry: must-revalidate also forbids serving the stale copy when validation fails");
+    /* code-derived characterisation of the verdicts (not demanded by C12) */
+    __CPROVER_assert(!st_known || (code == spec && g_rc_fail_on_validation == sfail && g_rc_no_cache == snocache),
+                     "pinned: refreshCheck() answers exactly what the transcribed ladder spec_check() answers (code and the two request flags)");
+    __CPROVER_assert(!st_known || (code == FRESH_MIN_RULE) == (spec == FRESH_MIN_RULE), "pinned: FRESH_MIN_RULE exactly when the ladder says so");
+    __CPROVER_assert(!st_known || (code == FRESH_LMFACTOR_RULE) == (spec == FRESH_LMFACTOR_RULE), "pinned: FRESH_LMFACTOR_RULE exactly when the ladder says so");
+    __CPROVER_assert(!st_known || (code == STALE_MAX_RULE) == (spec == STALE_MAX_RULE), "pinned: STALE_MAX_RULE exactly when the ladder says so");
+    __CPROVER_assert(!st_known || (code == STALE_LMFACTOR_RULE) == (spec == STALE_LMFACTOR_RULE), "pinned: STALE_LMFACTOR_RULE exactly when the ladder says so");
+    __CPROVER_assert(!st_known || (code == STALE_DEFAULT) == (spec == STALE_DEFAULT), "pinned: STALE_DEFAULT exactly when the ladder says so");
+    /* the verdict names its rule on every input, recomputed product or not */
+    __CPROVER_assert((code != FRESH_MIN_RULE || rule == 2) && (code != STALE_MAX_RULE || rule == 8) && (code != STALE_DEFAULT || rule == 0) &&
+                     ((code != FRESH_LMFACTOR_RULE && code != STALE_LMFACTOR_RULE && code != FRESH_OVERRIDE_LASTMOD) || rule == 4) &&
+                     ((code != FRESH_EXPIRES && code != STALE_EXPIRES && code != FRESH_OVERRIDE_EXPIRES) || rule == 1),
+                     "pinned: a rule-named verdict is given only when that rule decided (expires / max / L-M factor / min / default, in this order)");
+    __CPROVER_assert(!(rule == 4 && !rc_on(in[RC_HAVE_REQUEST]) && !revalidate_always(in) && !must_revalidate_stale(in)) ||
+                     code == FRESH_LMFACTOR_RULE || code == STALE_LMFACTOR_RULE || code == FRESH_OVERRIDE_LASTMOD || code == STALE_MAX_STALE,
+                     "pinned: L-M factor rule without request or revalidate flags => FRESH_/STALE_LMFACTOR_RULE, FRESH_OVERRIDE_LASTMOD or STALE_MAX_STALE");
+#ifdef REACH
+    /* phrased by deciding rule and FRESH_/STALE_ class, not by the pinned code names */
+    const int quiet = !rc_on(in[RC_HAVE_REQUEST]) && !revalidate_always(in) && !must_revalidate_stale(in);
+    __CPROVER_assert(!(rule == 2 && fresh_code(code)), "reach: fresh by the min rule");
+    __CPROVER_assert(!(rule == 4 && genuinely_fresh_code(code)), "reach: fresh by the L-M factor rule");
+    __CPROVER_assert(!(rule == 8 && stale_code(code) && quiet), "reach: stale by the max rule");
+    __CPROVER_assert(!(rule == 4 && stale_code(code) && quiet), "reach: stale by the L-M factor rule");
+    __CPROVER_assert(!(rule == 0 && stale_code(code) && quiet), "reach: stale by default");
+    __CPROVER_assert(!(rule == 4 && fresh_code(code) && !genuinely_fresh_code(code) && quiet), "reach: override-lastmod");
+    __CPROVER_assert(!(code == STALE_MUST_REVALIDATE && rule == 0 && !revalidate_always(in)), "reach: heuristically stale must-revalidate entry");
+    __CPROVER_assert(!(code == STALE_MUST_REVALIDATE && rule == 4 && !revalidate_always(in)), "reach: L-M-factor-stale must-revalidate entry");
+    __CPROVER_assert(!(stale_code(code) && rule == 2 && req_cc_active(in) && rc_on(in[RC_REQ_MAXAGE_SET]) && in[RC_REQ_MAXAGE] == 0 && !must_revalidate_stale(in) && !revalidate_always(in)),
+                     "reach: max-age=0 on a min-rule-fresh entry");
+    __CPROVER_assert(!(g_rc_no_cache && rule == 4), "reach: client reload on a heuristic entry");
+    __CPROVER_assert(!(fresh_code(code) && rule == 8), "reach: client max-stale accepted for a max-rule-stale entry");
+    __CPROVER_assert(!(fresh_code(code) && rule == 2 && must_revalidate_stale(in)), "reach: must-revalidate entry fresh by min rule");
+    __CPROVER_assert(!(fresh_code(code) && rule == 1), "reach: fresh explicit-expiry entries are in the domain");
+    __CPROVER_assert(!(in[RC_WHICH_RULE] == 1 && rc_on(in[RC_HAVE_MEM]) && rule == 8 && stale_code(code)), "reach: built-in default rule after a refreshLimits() miss");
+#endif
+}
+#endif
+
+/* ---------------- target "cachable": refreshIsCachable() (assumed as a symbolic boolean by the C11 unit) ---------------- */
+#ifdef T_CACHABLE
+extern int rs_refreshIsCachable(const long *in, double pct);
+extern int rs_storeCount(int code);
+extern int g_rc_store_total;
+void h_cachable(void)
+{
+    long in[RC_COUNT];
+    double pct;
+    /* refreshIsCachable() passes no request and delta = Config.minimum_expiry_time */
+    __CPROVER_assume(in[RC_NOW] >= 0 && in[RC_NOW] <= TMAX && in[RC_CFG_MIN_EXPIRY] >= 0 && in[RC_CFG_MIN_EXPIRY] <= TMAX);
+    in[RC_HAVE_REQUEST] = 0;
+    in[RC_DELTA] = in[RC_CFG_MIN_EXPIRY];
+    IN_INT(RC_REQ_MINFRESH); IN_INT(RC_REQ_MAXAGE); IN_INT(RC_REQ_MAXSTALE); IN_INT(RC_REP_SIE); IN_INT(RC_PAT_MAX_STALE);
+    IN_INT(RC_CFG_REFRESH_ALL_IMS); IN_INT(RC_CFG_RELOAD_INTO_IMS); IN_INT(RC_CFG_MAX_STALE);
+    __CPROVER_assume(judged_at(in) <= TMAX);
+    __CPROVER_assume(in[RC_EXPIRES] >= -TMAX - 1 && in[RC_EXPIRES] <= TMAX);
+    __CPROVER_assume(in[RC_TIMESTAMP] >= -1 && in[RC_TIMESTAMP] <= TMAX && in[RC_LASTMOD] >= -1 && in[RC_LASTMOD] <= TMAX);
+    __CPROVER_assume(in[RC_PAT_MIN] >= 0 && in[RC_PAT_MIN] <= TMAX && in[RC_PAT_MAX] >= 0 && in[RC_PAT_MAX] <= TMAX);
+    __CPROVER_assume(in[RC_WHICH_RULE] >= 0 && in[RC_WHICH_RULE] <= 2);
+    __CPROVER_assume(pct >= 0.0 && pct <= PCTMAX);
+    /* in[RC_BASE_CONTENT_LENGTH]: any long */
+
+    int r = rs_refreshIsCachable(in, pct);
+
+    const int rule = spec_check_rule(in, pct);
+    const long age = spec_age(in);
+    const double epct = r_pct(in, pct);
+    const int st_known = rule != 4 || epct == 0.0;
+    long st = -1;
+    if (rule == 1) st = in[RC_EXPIRES] > judged_at(in) ? -1 : judged_at(in) - in[RC_EXPIRES];
+    else if (rule == 8) st = age - r_max(in);
+    else if (rule == 2) st = -1;
+    else if (rule == 0) st = age - r_min(in);
+    else if (epct == 0.0) st = age;
+    int sfail, snocache;
+    const int reason = spec_check(in, rule, st, &sfail, &snocache);       /* what refreshCheck(entry, nullptr, minimum_expiry_time) answers */
+    const long lm = in[RC_LASTMOD] < 0 ? in[RC_TIMESTAMP] : in[RC_LASTMOD];  /* StoreEntry::lastModified() */
+    const int refreshable = lm >= 0 && (!rc_on(in[RC_HAVE_MEM]) || in[RC_BASE_CONTENT_LENGTH] != 0);
+
+    __CPROVER_assert(r == 0 || r == 1, "ensures: boolean");
+#ifdef TWIN_CACHABLE
+    __CPROVER_assert(!(st_known && stale_code(reason)) || r != refreshable, "ensures: TWIN (negated) stale in minimum_expiry_time seconds => cachable iff refreshable");
+#else
+    __CPROVER_assert(!(st_known && stale_code(reason)) || r == refreshable,
+                     "ensures: stale minimum_expiry_time seconds from now => cachable iff it can be refreshed (a Last-Modified/timestamp validator, not a 0-byte stored body)");
+#endif
+    __CPROVER_assert(!(st_known && fresh_code(reason)) || r == 1, "ensures: still fresh minimum_expiry_time seconds from now (judged without a request) => cachable");
+    __CPROVER_assert(!refreshable || r == 1, "ensures: refreshable entries are cachable whatever the freshness verdict");
+    __CPROVER_assert(!(revalidate_always(in) && !refreshable) || r == 0, "ensures: an always-revalidate entry that cannot be refreshed is not cachable");
+    __CPROVER_assert(g_rc_store_total == 1 && (!st_known || rs_storeCount(reason) == 1),
+                     "ensures: the verdict is counted once in refreshCounts[rcStore] (counters start at 0)");
+#ifdef REACH
+    __CPROVER_assert(!(r == 1 && st_known && fresh_code(reason)), "reach: cachable because fresh");
+    __CPROVER_assert(!(r == 1 && st_known && stale_code(reason)), "reach: cachable because refreshable");
+    __CPROVER_assert(!(r == 0 && lm < 0), "reach: not cachable, no modification time");
+    __CPROVER_assert(!(r == 0 && lm >= 0 && in[RC_BASE_CONTENT_LENGTH] == 0), "reach: not cachable, 0-byte body");
+    __CPROVER_assert(!(r == 1 && !rc_on(in[RC_HAVE_MEM]) && stale_code(reason)), "reach: no mem_obj");
+    __CPROVER_assert(!(rule == 4 && !st_known && r == 1), "reach: L-M factor rule");
+#endif
+}
+#endif
+
+/* ---------------- targets "limits" / "first_dot": the real rule look-ups over a configured list of at most 4 rules ---------------- */
+#ifdef T_LIMITS
+#define RL_MAX 4
+extern int rs_refreshLimits(int n, int match_bits, int dot_bits, const unsigned long *tests0, const unsigned long *count0);
+extern int rs_refreshFirstDotRule(int n, int match_bits, int dot_bits, const unsigned long *tests0, const unsigned long *count0);
+extern unsigned long g_rl_tests[RL_MAX], g_rl_count[RL_MAX];
+static int first_bit(int n, int bits) { for (int i = 0; i < RL_MAX; ++i) if (i < n && ((bits >> i) & 1)) return i; return -1; }
+void h_limits(void)
+{
+    int n, match_bits, dot_bits;
+    unsigned long tests0[RL_MAX], count0[RL_MAX];
+    __CPROVER_assume(n >= 0 && n <= RL_MAX && match_bits >= 0 && match_bits < (1 << RL_MAX) && dot_bits >= 0 && dot_bits < (1 << RL_MAX));
+#ifdef FIRST_DOT
+    int r = rs_refreshFirstDotRule(n, match_bits, dot_bits, tests0, count0);
+    const int want = first_bit(n, dot_bits);
+#else
+    int r = rs_refreshLimits(n, match_bits, dot_bits, tests0, count0);
+    const int want = first_bit(n, match_bits);
+#endif
+#ifdef TWIN_LIMITS
+    __CPROVER_assert(r != want, "ensures: TWIN (negated) the first rule in configuration order");
+#else
+    __CPROVER_assert(r == want, "ensures: the answer is the FIRST rule, in configuration order, whose regex matches (is \".\"), or nullptr when none does");
+#endif
+    for (int i = 0; i < RL_MAX; ++i) {
+#ifdef FIRST_DOT
+        __CPROVER_assert(g_rl_tests[i] == 0 && g_rl_count[i] == 0, "ensures: refreshFirstDotRule() leaves the match statistics alone");
+#else
+        __CPROVER_assert(g_rl_tests[i] == (unsigned long)(i < n && (want < 0 || i <= want)), "ensures: matchTests counts exactly the rules tried (up to and including the hit)");
+        __CPROVER_assert(g_rl_count[i] == (unsigned long)(i == want), "ensures: matchCount counts the hit only");
+#endif
+    }
+#ifdef REACH
+    __CPROVER_assert(!(r == -1 && n == RL_MAX), "reach: no rule of a full list matches");
+    __CPROVER_assert(!(r == RL_MAX - 1), "reach: the last rule is the first match");
+    __CPROVER_assert(!(r == 0 && n > 1), "reach: the first rule matches");
+    __CPROVER_assert(!(n == 0), "reach: empty list");
 #endif
 }
 #endif
